@@ -235,7 +235,7 @@ fn seg_random(rng: &mut Rng, len: usize, k: usize) -> Vec<usize> {
 
 pub fn run_memory(ctx: &Ctx) {
     let nw = workers();
-    let nstreams = ctx.tier.pick(400usize, 3000usize);
+    let nstreams = ctx.tier.pick(400usize, 10_000usize);
     let ref_caller = Caller { keep_reader: false, flush_upgraded: true };
     let keep_caller = Caller { keep_reader: true, flush_upgraded: true };
     par(nw, |w| {
